@@ -422,6 +422,9 @@ func artelaInvoke(ctx context.Context, evm *avm.EVM, inv *Invocation) (obs Obs) 
 	// The caller of a top-level frame is a contract object so that DELEGATECALL
 	// (which needs the parent's caller and value) is well defined.
 	caller := avm.NewContract(avm.AccountRef(inv.Origin), avm.AccountRef(inv.Caller), value, inv.Gas)
+	// calldata in a buffer of exactly its length (and nil when empty): a read
+	// beyond the payload must fault instead of silently seeing spare capacity
+	inv = exactInput(inv)
 	switch inv.Kind {
 	case "call":
 		ret, gas, err = evm.Call(ctx, caller, inv.To, inv.Input, inv.Gas, value)
@@ -606,4 +609,16 @@ func (nullArtelaTracer) CaptureExit([]byte, uint64, error) {}
 func (nullArtelaTracer) CaptureState(uint64, avm.OpCode, uint64, uint64, *avm.ScopeContext, []byte, int, error) {
 }
 func (nullArtelaTracer) CaptureFault(uint64, avm.OpCode, uint64, uint64, *avm.ScopeContext, int, error) {
+}
+
+// exactInput returns the invocation with its input copied into a slice whose
+// capacity equals its length.
+func exactInput(inv *Invocation) *Invocation {
+	if len(inv.Input) == 0 {
+		return inv
+	}
+	c := *inv
+	c.Input = make([]byte, len(inv.Input))
+	copy(c.Input, inv.Input)
+	return &c
 }
